@@ -69,6 +69,10 @@ class Gen(object):
 
     def uid(self):
         r = self.r.random()
+        if self.live and r < 0.04:
+            # text that is NOT the identifier of any object, although a lenient store would read it as one
+            u = self.r.choice(self.live)
+            return self.r.choice(["0%d", " %d", "%d.0", "+%d", "%de0", "%d "]) % u
         if self.live and r < 0.75:
             return self.r.choice(self.live)
         if self.dead and r < 0.9:
